@@ -537,6 +537,8 @@ package h2
 // Facts about the constant http2.ClientPreface = "PRI * HTTP/2.0\r\n\r\nSM\r\n\r\n": 24 bytes, none of them zero.
 //@ axiom preface-constant: len(connectionPreface) == 24 && forall i int :: 0 <= i && i < 24 ==> connectionPreface[i] != 0
 
+//@ pred clientSendsPreface() = forall i int :: 0 <= i && i < 24 ==> rdStream(rdPos + i) == connectionPreface[i]
+
 //@ extern iface io.Reader.Read
 //@   modifies p[*], rdPos
 //@   ensures 0 <= n && n <= len(p) && rdPos == old(rdPos) + n
@@ -558,7 +560,37 @@ package h2
 //@ func forwardPreface
 //@   serves C08
 //@   safe slice index make
-//@   requires forall i int :: 0 <= i && i < 24 ==> rdStream(rdPos + i) == connectionPreface[i]
-//@   ensures[valid-client-accepted-for-any-segmentation] !rdFails && !wrFails ==> result == nil
+//@   modifies rdPos, wrPos
+//@   ensures[valid-client-accepted-for-any-segmentation] old(clientSendsPreface()) && !rdFails && !wrFails ==> result == nil
 //@   ensures[exactly-the-preface-consumed-and-written] result == nil ==> rdPos == old(rdPos) + 24 && wrPos == old(wrPos) + 24
 //@   loop 0 invariant m >= 0 && len(preface) == m && wrPos + m == old(wrPos) + 24 && rdPos == old(rdPos) + 24
+
+// ---------------------------------------------------------------------------------------------
+// C10: the upstream TLS connection dialled by Config.Proxy is closed on every return that follows a successful dial.
+
+//@ ghost var dialN int
+//@ ghost var lastDialed *tls.Conn
+//@ ghost var lastDialErr error
+//@ ghost field tls.Conn.gclosed bool
+
+//@ extern func tls.Dial
+//@   modifies dialN, lastDialed, lastDialErr
+//@   ensures dialN == old(dialN) + 1 && lastDialed == result0 && lastDialErr == result1
+//@   ensures result1 == nil ==> fresh(result0) && !result0.gclosed
+//@   ensures result1 != nil ==> result0 == nil
+//@ extern func (*tls.Conn).Close
+//@   modifies c.gclosed
+//@   ensures c.gclosed
+
+//@ func newRelay
+//@   serves C09 C10
+//@   requires enableDebugLogs != nil
+//@   ensures result != nil && fresh(result)
+//@   ensures[initial-windows] result.connectionWindowSize == 65535 && result.initialWindowSize == 65535 && result.maxFrameSize == 16384
+//@   ensures result.outputBuffers != nil && len(result.outputBuffers) == 0 && result.src == src && result.dest == dest && result.dir == dir
+
+//@ func (*Config).Proxy
+//@   serves C10
+//@   requires c != nil && url != nil
+//@   ensures[dials-once] dialN == old(dialN) + 1
+//@   ensures[upstream-closed-on-return] lastDialErr == nil ==> lastDialed != nil && lastDialed.gclosed
